@@ -5,7 +5,6 @@ package env
 
 import (
 	"context"
-	"errors"
 	"fmt"
 	"sort"
 	"sync"
@@ -21,8 +20,19 @@ type Call struct {
 	Err   bool
 }
 
-// ErrInjected is the error every injected fault returns.
-var ErrInjected = errors.New("verif: injected fault")
+// ErrInjected is the error every injected fault returns. Its chain contains the library's own sentinel errors
+// (what a store, comparator or marshaler that is itself built on mast hands up when one of *its* iterations or
+// diffs ended: "node not upstream: %w"): a fault is a fault whatever it wraps, and code that asks
+// errors.Is(err, ErrNoMoreDiffs) of an error that came out of the environment would take it for its own
+// end-of-work signal.
+var ErrInjected error = injectedFault{}
+
+type injectedFault struct{}
+
+func (injectedFault) Error() string { return "verif: injected fault" }
+func (injectedFault) Is(target error) bool {
+	return target == mast.ErrNoMoreDiffs || target == mast.ErrIterDone
+}
 
 // Store is a recording in-memory Persist with a fixed URL prefix.
 type Store struct {
